@@ -45,6 +45,7 @@ func (P *Program) isSinkPkg(path string) bool {
 // third-party packages whose (cheap, self-contained) initialisers are run
 var initAllow = map[string]bool{
 	"k8s.io/apimachinery/pkg/api/errors": true, // knownReasons table read by IsConflict & co
+	"github.com/aws/aws-sdk-go/aws/request": true, // throttle / retry code tables read by request.IsErrorThrottle & co
 }
 
 func (P *Program) runsInit(path string) bool { return P.isRepoPkg(path) || initAllow[path] }
